@@ -107,9 +107,8 @@ class BulkMonitor(Monitor):
             if header and (not table or not table[0]):
                 out_of_domain(mon, "no-header-row")
                 return None
-            if column < 0:
-                out_of_domain(mon, "negative-column")
-                return None
+            # ("any column index": a negative index counts from the end of each row, as Python's - and the library's -
+            #  list indexing does; seed C16-T broke exactly column=-1)
             plain, ambiguous = FILE[fn]
             ctx.update(kind="file", path=p, bytes=data, delimiter=delimiter, head=table[0] if header else None,
                        rows=table[1:] if header else table, column=column,
@@ -141,7 +140,7 @@ class BulkMonitor(Monitor):
             w.update(column=ctx["column"], target_column=ctx["target"], cells=cells)
         else:
             rows = ctx["rows"]
-            cells = [r[ctx["column"]] if len(r) > ctx["column"] else None for r in rows]
+            cells = [r[ctx["column"]] if -len(r) <= ctx["column"] < len(r) else None for r in rows]
             w.update(column=ctx["column"], separator=ctx["delimiter"], header=ctx["head"], rows=rows)
         # The oracle: what the dictated scalar method, with the dictated flags, answers for each cell - asked by the
         # monitor itself (monitor mode: not traced, no failpoint), so it does not depend on *how* the bulk operation is
